@@ -11,7 +11,7 @@ from .. import core, crash
 
 PID = "C11"
 LEVEL = "fault_enumeration"
-RULE = ("writers (sweep of 6 designs, NSGA-II 4x3 serial, NSGA-II 6x3 with 3 worker threads, eps-MOEA 4x2, OMOPSO 4x2, SMPSO 4x2) with an SQLite store in "
+RULE = ("writers (sweep of 6 designs, NSGA-II 4x3 serial, NSGA-II 6x3 with 3 worker threads, eps-MOEA 4x2, OMOPSO 4x2, SMPSO 4x2, and one sync_all of 450 recorded designs carrying ~3 MB of custom data in a single transaction) with an SQLite store in "
         "default thread-safe mode, created before crash points start counting, are killed (a) by os._exit at the k-th Python-level "
         "event: every sqlite3 connect, the moment before/after every execute and commit, objective entry/exit, return of every "
         "synchronisation (quick: every 3rd event of the serial writers, every 5th of the others; thorough: every event); (b) by "
@@ -131,18 +131,20 @@ def cases(ctx):
             continue
         serial = kind in ("sweep", "nsga2")
         step = 1 if (not ctx.quick or serial) else 2
+        if kind == "bulk_sync_all":
+            step = ctx.pick(45, 9)          # ~900 execute events in one transaction: a sample of them
         off = ctx.seed % step
         for k in range(1 + off, total + 1 + (10 if kind == "nsga2_threads" else 0), step):
             yield "pyevent", {"writer": kind, "k": k, "total": total}
         yield "complete", {"writer": kind}
-    for kind in ("sweep", "nsga2", "epsmoea"):
+    for kind in ("sweep", "nsga2", "epsmoea", "bulk_sync_all"):
         calibrate(kind)
         for i in range(1, _NCOMMIT.get(kind, 0) + 1, ctx.pick(2, 1)):
             for mode in ("low", "high", "mid"):
                 yield "fsize", {"writer": kind, "commit": i, "mode": mode}
     rr = ctx.rng("kill")
     for i in range(ctx.pick(100, 800)):
-        kind = ["nsga2_threads", "nsga2_threads", "epsmoea", "sweep", "nsga2", "omopso", "smpso"][i % 7]
+        kind = ["nsga2_threads", "nsga2_threads", "epsmoea", "sweep", "nsga2", "omopso", "smpso", "bulk_sync_all"][i % 8]
         yield "sigkill", {"writer": kind, "frac": rr.random(), "i": i}
     if not ctx.quick:
         for kind in ("sweep", "nsga2", "epsmoea"):
